@@ -237,6 +237,9 @@ func execSig(p *Program, cfg ExecCfg, ex *execState) uint64 {
 	if cfg.RealDeps {
 		h = (h ^ 0x4ea1d) * 1099511628211
 	}
+	if cfg.SharedBytes {
+		h = (h ^ 0x5b17e5) * 1099511628211
+	}
 	if cfg.OutHandling != 0 {
 		h = (h ^ cfg.OutHandling) * 1099511628211
 	}
